@@ -11,8 +11,9 @@ Open Scope Z_scope.
 
 Inductive hs_out :=
   | HsAccept (v : value)      (* hello: version matched, key parsed, handshake continues with v
-                                 challenge: token matched *)
-  | HsIgnore                  (* hello: other version (silently dropped); challenge: token mismatch *)
+                                 challenge: token matched (a mismatch raises NameError: the
+                                 failure branch names an undefined variable, as Conn.v records) *)
+  | HsIgnore                  (* hello: other version (silently dropped) *)
   | HsRaise (e : serr).       (* exception leaves the receiver (the server loop logs it) *)
 
 Section Hs.
@@ -65,7 +66,7 @@ Section Hs.
             match eq_int tv expected with
             | SErr e => HsRaise e
             | SOk true => HsAccept v
-            | SOk false => HsIgnore
+            | SOk false => HsRaise SName   (* `client.log.warning(...)`: `client` is not defined there *)
             end
         end
     end.
